@@ -7,6 +7,7 @@ import (
 	"strings"
 
 	"github.com/tobgu/qframe/config/csv"
+	"github.com/tobgu/qframe/config/groupby"
 	"github.com/tobgu/qframe/config/newqf"
 	"github.com/tobgu/qframe/internal/vx"
 )
@@ -337,6 +338,113 @@ func VX_C17_slice_sorted() {
 		if r > 0 && sl[r] != nil && sl[r-1] != nil {
 			vx.Check(rank(*sl[r-1]) <= rank(*sl[r]), "Slice shows the declared order")
 		}
+	}
+	vx.Reach("end")
+}
+
+// VX_C17_history: the declared value set and order stay with the column through operations that build
+// new columns or frames (Aggregate's key columns, Distinct, Sort, Filter, Copy): comparisons against a
+// declared value that does not occur in the data, `in` with every declared value (nulls never match),
+// undeclared constants.
+func VX_C17_history() {
+	op := vx.ParamStr("op")
+	vals := []string{"low", "medium", "high", "critical"} // declared order, not alphabetical
+	present := []int{0, 2, 3}                               // "medium" never occurs in the data
+	n := 3
+	data := make([]*string, n)
+	nums := make([]int, n)
+	for r := 0; r < n; r++ {
+		k := vxConc(vx.IntN(0, 3), 4)
+		if k < 3 {
+			s := vals[present[k]]
+			data[r] = &s
+		}
+		nums[r] = r + 1
+	}
+	f := New(map[string]interface{}{"e": data, "n": nums}, newqf.Enums(map[string][]string{"e": vals}))
+	vx.Assume(f.Err == nil)
+	vx.ConstrainHash(3, 0) // grouping is not the subject here: one probe chain
+	g := f
+	switch op {
+	case "none":
+	case "aggregate":
+		g = f.GroupBy(groupby.Columns("e"), groupby.Null(true)).Aggregate(Aggregation{Fn: "sum", Column: "n"})
+	case "distinct":
+		g = f.Distinct(groupby.Columns("e"), groupby.Null(true))
+	case "sort":
+		g = f.Sort(Order{Column: "e", Reverse: true})
+	case "filter":
+		g = f.Filter(Filter{Column: "n", Comparator: ">", Arg: 1})
+	case "copy":
+		g = f.Copy("e2", "e").Drop("e").Copy("e", "e2")
+	case "qframes":
+		qs, err := f.GroupBy(groupby.Columns("e"), groupby.Null(true)).QFrames()
+		vx.Assume(err == nil && len(qs) > 0)
+		g = qs[len(qs)-1]
+	}
+	vx.Check(g.Err == nil, "derived frame: no error")
+	if g.Err != nil {
+		return
+	}
+	ev := g.MustEnumView("e")
+	rank := make([]int, ev.Len())
+	for r := range rank {
+		rank[r] = -1
+		if p := ev.ItemAt(r); p != nil {
+			for k, v := range vals {
+				if *p == v {
+					rank[r] = k
+				}
+			}
+			vx.Check(rank[r] >= 0, "cell holds a declared value")
+		}
+	}
+	count := func(q QFrame) int {
+		if q.Err != nil {
+			return -1
+		}
+		return q.Len()
+	}
+	for _, cmp := range []string{"<", "<=", ">", ">="} {
+		for _, c := range []int{1, 2} {
+			want := 0
+			for _, k := range rank {
+				if k >= 0 && c17cmp(cmp, k, c) {
+					want++
+				}
+			}
+			r := g.Filter(Filter{Column: "e", Comparator: cmp, Arg: vals[c]})
+			vx.Check(count(r) == want, "comparison with a declared value follows the declared order after "+op)
+		}
+	}
+	nonNull := 0
+	for _, k := range rank {
+		if k >= 0 {
+			nonNull++
+		}
+	}
+	all := g.Filter(Filter{Column: "e", Comparator: "in", Arg: append([]string{}, vals...)})
+	vx.Check(count(all) == nonNull, "in with every declared value keeps exactly the non-null rows after "+op)
+	ninv := g.Filter(Not(Filter{Column: "e", Comparator: "in", Arg: append([]string{}, vals...)}))
+	vx.Check(count(ninv) == len(rank)-nonNull, "not in with every declared value keeps exactly the null rows after "+op)
+	pat := g.Filter(Filter{Column: "e", Comparator: "like", Arg: "%"})
+	vx.Check(count(pat) == nonNull, "like % keeps exactly the non-null rows after "+op)
+	bad := g.Filter(Filter{Column: "e", Comparator: ">", Arg: "urgent"})
+	vx.Check(bad.Err != nil, "an undeclared constant is an error after "+op)
+	srt := g.Sort(Order{Column: "e"})
+	sv := srt.MustEnumView("e")
+	last := -2
+	for r := 0; r < sv.Len(); r++ {
+		k := -1
+		if p := sv.ItemAt(r); p != nil {
+			for j, v := range vals {
+				if *p == v {
+					k = j
+				}
+			}
+		}
+		vx.Check(k >= last, "Sort follows the declared order after "+op)
+		last = k
 	}
 	vx.Reach("end")
 }
